@@ -1,0 +1,6 @@
+//go:build !verif
+
+package updog
+
+// verifPoint is a no-op unless the verif build tag is set.
+func verifPoint(site string) {}
